@@ -68,6 +68,7 @@ def confirm_and_store(res, exe, prop, cfg, tape_path, msg, want='fail', sticky_c
             ok += 1
     if ok == 3:
         header, ops = D.read_tape(tape_path)
+        ops += [l for l in Path(tape_path).read_text().splitlines() if l.startswith('case ')]
         h = D.sha(prop, cfg, '\n'.join(ops))[:10]
         dst = replays_dir() / ('%s-%s-%s.tape' % (prop, cfg, h))
         if not header:
@@ -79,6 +80,29 @@ def confirm_and_store(res, exe, prop, cfg, tape_path, msg, want='fail', sticky_c
         return True
     res.unreproduced.append({'config': cfg, 'message': msg, 'reproduced': '%d/3' % ok})
     return False
+
+
+def enum_crash_tape(exe, prop, cfg, crashfile, workdir):
+    """enumerator targets store the textual key of the running case in the crash area"""
+    import struct
+    try:
+        raw = Path(crashfile).read_bytes()
+    except OSError:
+        return None, None
+    if len(raw) < 96:
+        return None, None
+    magic, ln, running, _op = struct.unpack_from('<IIII', raw, 0)
+    if magic != 0x56464352 or running != 2:
+        return None, None
+    key = raw[88:88 + ln].decode(errors='replace')
+    tape = workdir / ('crash_%s.tape' % cfg)
+    tape.write_text('check=%s config=%s\ncase %s\n' % (prop, cfg, key))
+    rc, out, err = replay_once(exe, prop, tape)
+    if classify_rc(rc) != 'crash':
+        return tape, None
+    sig = crash_signature(err)
+    tape.write_text('check=%s config=%s  # %s\ncase %s\n' % (prop, cfg, sig, key))
+    return tape, sig
 
 
 def minimise_crash(exe, prop, cfg, crashfile, workdir, budget=250):
@@ -130,8 +154,11 @@ def run_jobs(prop, jobs, seed, crash_is_violation, crash_class_codes=None, max_r
             s = D.derive_seed(seed, prop, u.name, attempt)
             tag = '%s_%d' % (u.name, attempt)
             stats, crash, rout = work / (tag + '.json'), work / (tag + '.crash'), work / (tag + '.tape')
-            cmd = [exe, '--prop', prop, '--cases', job['cases'], '--maxlen', job['maxlen'], '--seed', s,
-                   '--stats', stats, '--crash', crash, '--replay-out', rout] + list(job.get('extra_args', []))
+            if job.get('enum'):
+                cmd = [exe, '--prop', prop, '--seed', s, '--stats', stats, '--crash', crash, '--replay-out', rout] + list(job.get('extra_args', []))
+            else:
+                cmd = [exe, '--prop', prop, '--cases', job['cases'], '--maxlen', job['maxlen'], '--seed', s,
+                       '--stats', stats, '--crash', crash, '--replay-out', rout] + list(job.get('extra_args', []))
             rc, out, err, wall = D.run_proc(cmd, timeout=job.get('timeout', 1800))
             kind = classify_rc(rc)
             rec = {'job': job, 'exe': exe, 'seed': s, 'kind': kind, 'rc': rc, 'wall': wall, 'stats': None, 'tape': None, 'msg': '',
@@ -139,6 +166,9 @@ def run_jobs(prop, jobs, seed, crash_is_violation, crash_class_codes=None, max_r
             if stats.exists():
                 try:
                     rec['stats'] = json.loads(stats.read_text())
+                    ex = Path(str(stats) + '.extra')
+                    if ex.exists():
+                        rec['stats']['extra'] = json.loads(ex.read_text())
                 except Exception:
                     pass
             if kind == 'fail':
@@ -162,7 +192,10 @@ def run_jobs(prop, jobs, seed, crash_is_violation, crash_class_codes=None, max_r
             if rec['kind'] == 'fail':
                 confirm_and_store(res, rec['exe'], prop, u.name, rec['tape'], rec['msg'])
             elif rec['kind'] == 'crash':
-                tape, sig = minimise_crash(rec['exe'], prop, u.name, rec['crashfile'], work)
+                if rec['job'].get('enum'):
+                    tape, sig = enum_crash_tape(rec['exe'], prop, u.name, rec['crashfile'], work)
+                else:
+                    tape, sig = minimise_crash(rec['exe'], prop, u.name, rec['crashfile'], work)
                 attributable = crash_is_violation
                 if tape and sig and crash_class_codes is not None:
                     _, ops = D.read_tape(tape)
@@ -192,18 +225,23 @@ def merge_coverage(res, rule, extra=None):
     feats = {}
     samples = []
     per = {}
+    extra_sum = {}
     for s in res.stats:
         for k, v in s.get('features', {}).items():
             feats[k] = feats.get(k, 0) + v
         for x in s.get('samples', [])[:2]:
             if len(samples) < 10:
                 samples.append({'config': s['cfg'], 'trace': x})
-        per[s['cfg']] = {'cases': s.get('cases', 0), 'ops': s.get('ops', 0), 'distinct_nontrivial': s.get('distinct_nontrivial', 0),
+        for k, v in s.get('extra', {}).items():
+            if isinstance(v, int):
+                extra_sum[k] = extra_sum.get(k, 0) + v
+        per[s['cfg'] + s.get('label', '')] = {'cases': s.get('cases', 0), 'ops': s.get('ops', 0), 'distinct_nontrivial': s.get('distinct_nontrivial', 0),
                          'seed': s.get('seed'), 'wall_s': s.get('wall_s')}
     cov = {'evaluations': ev, 'distinct_nontrivial': dn, 'rule': rule, 'samples': samples,
            'operations_executed': sum(s.get('ops', 0) for s in res.stats),
            'feature_histogram_cases': feats, 'configs': per, 'crashed_elsewhere': res.crashed_elsewhere,
            'unreproduced': res.unreproduced, 'inconclusive': res.inconclusive, 'notes': res.notes[:20]}
+    cov.update(extra_sum)
     if extra:
         cov.update(extra)
     return cov
